@@ -3,7 +3,7 @@
     generators; sorting optimiser; multi-objective choice; protocol-level select). *)
 From Coq Require Import Permutation Sorting.Sorted Qround PrimFloat.
 From PV Require Import Lib.Common Model.C17_Sampling Proofs.C17_Sampling Model.C07_Config
-  Proofs.C07_LocalOpt Proofs.C07_Tail Proofs.C07_Xmap Proofs.C07_Sort.
+  Proofs.C07_LocalOpt Proofs.C07_Tail Proofs.C07_Xmap Proofs.C07_Sort Proofs.C07_Tiled Proofs.C07_RealMateMo Proofs.C07_Integer.
 
 (** * the tail of every individual-based configuration: outcross descent, then a shuffle within every cross.
     For every table, every oracle of exchange orders and every within-cross permutation: the entries are permuted, the number of
@@ -74,6 +74,80 @@ Theorem C07_relabel_values : forall crit pi k sel sel',
   map (fun i => nth i (permute 0%Z pi crit) 0%Z) sel' = map (fun i => nth i crit 0%Z) sel.
 Proof. exact relabel_values. Qed.
 Print Assumptions C07_relabel_values.
+
+(** * integer contribution vectors (IntegerSelectionConfiguration since commit e5bdc2c0): for EVERY count vector, every start
+    the generator can return, every shuffle and every exchange order of the descent, individual i is used the floor or the
+    ceiling of its proportional share t*x_i/sum(x) — no guard on the vector (the sum may or may not divide the slots) *)
+Theorem C07_integer_floor_ceil_share : forall nc np x start perm pms r,
+  let n := length (rep_from 0 x) in let t := (nc * np)%nat in
+  Permutation perm (seq 0 t) ->
+  (forall s, cfg_integer_sample nc np x start perm = Some s -> draws_ok np s pms) ->
+  cfg_integer nc np x start perm pms = Some r ->
+  length r = t /\
+  (forall v, In v r -> exists i, v = Z.of_nat i /\ (i < length x)%nat /\ (0 < nth i x 0)%Z) /\
+  (forall i, (i < length x)%nat ->
+     (Z.to_nat (nth i x 0%Z) * t / n <= count_z (Z.of_nat i) r <= (Z.to_nat (nth i x 0%Z) * t + n - 1) / n)%nat) /\
+  local_opt np r.
+Proof. exact cfg_integer_spec. Qed.
+Print Assumptions C07_integer_floor_ceil_share.
+
+(** 'within one of the proportional share' in the very form whose negation holds of the former code *)
+Theorem C07_integer_within_one_of_share : forall nc np x start perm pms r,
+  let n := length (rep_from 0 x) in let t := (nc * np)%nat in
+  Permutation perm (seq 0 t) ->
+  (forall s, cfg_integer_sample nc np x start perm = Some s -> draws_ok np s pms) ->
+  cfg_integer nc np x start perm pms = Some r ->
+  forall i, (i < length x)%nat ->
+    (Z.abs (Z.of_nat (count_z (Z.of_nat i) r) * Z.of_nat n - Z.of_nat t * nth i x 0%Z) < Z.of_nat n)%Z.
+Proof. exact cfg_integer_share. Qed.
+Print Assumptions C07_integer_within_one_of_share.
+
+(** regression witness: the code before commit e5bdc2c0 ([old_cfg_integer] = tiled_choice over the repeated options) *)
+Theorem C07_old_integer_share_refuted : exists nc np x choice perm pms r i,
+  let opts := rep_from 0 x in let t := (nc * np)%nat in
+  NoDup choice /\ Forall (fun p => (p < length opts)%nat) choice /\ length choice = (t mod length opts)%nat /\ Permutation perm (seq 0 t) /\
+  (forall s, tiled_choice opts t false choice perm = Some s -> draws_ok np s pms) /\
+  old_cfg_integer nc np x choice perm pms = Some r /\ (i < length x)%nat /\
+  (Z.of_nat (length opts) < Z.abs (Z.of_nat (count_z (Z.of_nat i) r) * Z.of_nat (length opts) - Z.of_nat t * nth i x 0%Z))%Z.
+Proof. exact old_cfg_integer_share_refuted. Qed.
+Print Assumptions C07_old_integer_share_refuted.
+
+(** * IntegerMateSelectionConfiguration (since commit 35c78bef): the same for candidate crosses *)
+Theorem C07_integer_mate_floor_ceil_share : forall nc np x xmap start perm rows,
+  let n := length (rep_from 0 x) in
+  Permutation perm (seq 0 nc) ->
+  cfg_integer_mate nc np x xmap start perm = Some rows ->
+  exists ds, xmap_rows xmap ds = Some rows /\ length rows = nc /\ length ds = nc /\
+    Forall (fun r => length r = np) rows /\
+    (forall d, In d ds -> exists i, d = Z.of_nat i /\ (i < length x)%nat /\ (0 < nth i x 0)%Z) /\
+    (forall i, (i < length x)%nat ->
+       (Z.to_nat (nth i x 0%Z) * nc / n <= count_z (Z.of_nat i) ds <= (Z.to_nat (nth i x 0%Z) * nc + n - 1) / n)%nat).
+Proof. exact cfg_integer_mate_spec. Qed.
+Print Assumptions C07_integer_mate_floor_ceil_share.
+
+Theorem C07_old_integer_mate_share_refuted : exists nc np x xmap choice perm perm2 ds rows i,
+  let opts := rep_from 0 x in
+  NoDup choice /\ Forall (fun p => (p < length opts)%nat) choice /\ length choice = (nc mod length opts)%nat /\
+  Permutation perm (seq 0 nc) /\ Permutation perm2 (seq 0 nc) /\
+  old_cfg_integer_mate nc np x xmap choice perm perm2 = Some rows /\ xmap_rows xmap ds = Some rows /\ (i < length x)%nat /\
+  (Z.of_nat (length opts) < Z.abs (Z.of_nat (count_z (Z.of_nat i) ds) * Z.of_nat (length opts) - Z.of_nat nc * nth i x 0%Z))%Z.
+Proof. exact old_cfg_integer_mate_share_refuted. Qed.
+Print Assumptions C07_old_integer_mate_share_refuted.
+
+(** * nmating / nprogeny: whatever a selection protocol accepts at construction (since commits fcb030f4, 8be05ab5), the
+    configuration built by select() accepts, with one positive entry per cross: select() cannot fail late on them *)
+Theorem C07_protocol_mating_parameters_accepted_by_configuration : forall nc np nm npg,
+  proto_args_ok nc np nm npg = true ->
+  cfg_args_ok nc np nm npg = true /\ length (matpar_value nc nm) = nc /\ length (matpar_value nc npg) = nc /\
+  Forall (fun v => (0 < v)%Z) (matpar_value nc nm) /\ Forall (fun v => (0 < v)%Z) (matpar_value nc npg).
+Proof. exact proto_args_accepted_by_cfg. Qed.
+Print Assumptions C07_protocol_mating_parameters_accepted_by_configuration.
+
+Theorem C07_old_protocol_mating_refuted :
+  (exists nc m, old_matpar_proto_ok nc m = true /\ matpar_cfg_ok nc m = false /\ m = MScalar 0%Z) /\
+  (exists nc m, old_matpar_proto_ok nc m = true /\ matpar_cfg_ok nc m = false /\ m = MArray [1;1;1]%Z /\ nc = 2%nat).
+Proof. exact old_proto_mating_refuted. Qed.
+Print Assumptions C07_old_protocol_mating_refuted.
 
 Example C07_hyps_satisfiable :
   (* three selfed crosses, three descent passes, then a shuffle within every cross *)
